@@ -292,13 +292,14 @@ fn main() {
                 let nsteps = 1 + g.below(steps as u64) as usize;
                 if paths == 1 {
                     // imposed mid-price paths: rising, falling, mixed, flat
-                    let base = 100 + g.below(100) as i64;
+                    // in half ticks: an odd value puts the mid-price between two grid points
+                    let base = 200 + g.below(200) as i64;
                     let mut path = vec![base];
                     let shape = g.below(4);
                     for s in 1..nsteps + 1 {
-                        let d = match shape { 0 => 2, 1 => -2, 2 => if g.chance(1, 2) { 3 } else { -3 }, _ => if s % 3 == 0 { 4 } else { 0 } };
+                        let d = match shape { 0 => *g.pick(&[1i64, 2, 4]), 1 => -*g.pick(&[1i64, 2, 4]), 2 => *g.pick(&[3i64, -3, 1, -1, 6, -6]), _ => if s % 3 == 0 { *g.pick(&[1i64, 8]) } else { 0 } };
                         let last = *path.last().unwrap();
-                        path.push((last + d).max(10));
+                        path.push((last + d).max(20));
                     }
                     agent_script(&mut w, &mut st, i, &mut g, market, nsteps, &kinds, Some(&path));
                 } else {
